@@ -417,7 +417,11 @@ theorem stmt_state_sem :
       split
       · exact rfl
       · split <;> exact rfl
-  | .exprstmt e, st, _, _, _ => by simp only [compileStmt]; trivial
+  | .exprstmt e, st, h, _, hwfe => by
+      simp only [CarveSSem] at h
+      simp only [exprsOf, List.all_cons, List.all_nil, Bool.and_true] at hwfe
+      simp only [compileStmt]
+      exact (expr_sem hms hinv env e h hwfe).bind (fun _ _ _ _ _ => rfl)
   | .ret e, st, _, _, _ => by simp only [compileStmt]; trivial
   | .ite x t none, st, h, hwf, hwfe => by
       simp only [CarveSSem, Bool.and_eq_true] at h
